@@ -590,7 +590,32 @@ fn adm(lib: &str, slot: &str, what: &str) -> Option<Vec<u8>> {
     })
 }
 
+/// the public per-colour helpers agree with what the style conversions do with a colour
+fn colour_helpers(lib: &str, s: anstyle::Style) {
+    for c in [s.get_fg_color(), s.get_bg_color()].into_iter().flatten() {
+        let only = anstyle::Style::new().fg_color(Some(c));
+        match lib {
+            "owo" => {
+                let direct = owo_colors::Style::new().color(anstyle_owo_colors::to_owo_colors(c));
+                assert_eq!(ow::value(&anstyle_owo_colors::to_owo_style(only)), ow::value(&direct), "to_owo_colors");
+            }
+            "termcolor" => {
+                assert_eq!(anstyle_termcolor::to_termcolor_spec(only).fg(), Some(&anstyle_termcolor::to_termcolor_color(c)), "to_termcolor_color");
+            }
+            "yansi" => {
+                // (the adapter names the unset background explicitly: `Primary`, yansi's "terminal default")
+                let direct = yansi::Style::new().fg(anstyle_yansi::to_yansi_color(c)).bg(yansi::Color::Primary);
+                assert_eq!(ya::value(&anstyle_yansi::to_yansi_style(only)), ya::value(&direct), "to_yansi_color");
+            }
+            _ => {}
+        }
+    }
+}
+
 fn adv(lib: &str, s: anstyle::Style, render: bool) -> Option<String> {
+    if !render {
+        colour_helpers(lib, s);
+    }
     Some(match lib {
         "ansi_term" => {
             let t = anstyle_ansi_term::to_ansi_term(s);
@@ -636,6 +661,9 @@ fn ads(f: &[&str]) -> Option<String> {
     };
     let st = Style { foreground: col(f.first()?)?, background: col(f.get(1)?)?, font_style: FontStyle::from_bits(f.get(2)?.parse().ok()?)? };
     let a = anstyle_syntect::to_anstyle(st);
+    assert_eq!(a.get_fg_color(), Some(anstyle_syntect::to_anstyle_color(st.foreground)), "to_anstyle_color");
+    assert_eq!(a.get_bg_color(), Some(anstyle_syntect::to_anstyle_color(st.background)), "to_anstyle_color");
+    assert_eq!(a.get_effects(), anstyle_syntect::to_anstyle_effects(st.font_style), "to_anstyle_effects");
     let e = a.get_effects();
     let mut bits = 0u32;
     for (k, c) in EFFECTS.iter().enumerate() {
